@@ -85,7 +85,76 @@ class Effects:
             for ci in m.classes.values():
                 for name, f in ci.methods.items():
                     self.method_index.setdefault(name, []).append((m.name, ci.name, f))
+        self.const_params = self._constant_options()
         self._solve()
+
+    # ------------------------------------------------------------------ boolean options that are constant in this package
+    def _constant_options(self):
+        """(qualname, parameter) -> bool for switches whose value is fixed on every call the package itself makes:
+        keyword-only parameters with a boolean default (options added next to the documented signature: the properties are stated
+        for calls that do not pass them) and, transitively, parameters of private helpers that only ever receive such a value or
+        a literal.  Branches on them are decided instead of joined."""
+        out = {}
+        for fi in self.pkg.all_funcs():
+            a = fi.node.args
+            for kwo, d in zip(a.kwonlyargs, a.kw_defaults):
+                if isinstance(d, ast.Constant) and isinstance(d.value, bool) and not _reassigned(fi.node, kwo.arg):
+                    out[(fi.qualname, kwo.arg)] = d.value
+        # call sites of private helpers
+        sites = {}
+        for fi in self.pkg.all_funcs():
+            for n in ast.walk(fi.node):
+                if isinstance(n, ast.Call) and isinstance(n.func, ast.Name):
+                    r = self.pkg.resolve_name(fi.module, fi, n.func.id)
+                    if r and r.startswith(PKG + ".") and r.count(".") == 2:
+                        q = r.split(".", 1)[1]
+                        if q in self.sum and self.sum[q].fi.name.startswith("_"):
+                            sites.setdefault(q, []).append((fi, n))
+        for _ in range(3):
+            changed = False
+            for q, calls in sites.items():
+                callee = self.sum[q].fi
+                params = [x.arg for x in callee.node.args.posonlyargs + callee.node.args.args]
+                for i, p_ in enumerate(params):
+                    if (q, p_) in out or _reassigned(callee.node, p_):
+                        continue
+                    vals = set()
+                    for (caller, call) in calls:
+                        arg = call.args[i] if i < len(call.args) and not any(isinstance(x, ast.Starred) for x in call.args) else next((k.value for k in call.keywords if k.arg == p_), None)
+                        if arg is None and not any(k.arg is None for k in call.keywords):
+                            # not passed: the helper's own default
+                            npos = len(params)
+                            dflts = callee.node.args.defaults
+                            j = i - (npos - len(dflts))
+                            arg = dflts[j] if 0 <= j < len(dflts) else None
+                        if isinstance(arg, ast.Constant) and isinstance(arg.value, bool):
+                            vals.add(arg.value)
+                        elif isinstance(arg, ast.Name) and (caller.qualname, arg.id) in out:
+                            vals.add(out[(caller.qualname, arg.id)])
+                        else:
+                            vals.add(None)
+                    if len(vals) == 1 and None not in vals:
+                        out[(q, p_)] = vals.pop()
+                        changed = True
+            if not changed:
+                break
+        return out
+
+    def _copy_flag(self, node, fi):
+        """value of a `copy=` argument: True / False when constant in this package, None (may alias) otherwise"""
+        if isinstance(node, ast.Constant) and isinstance(node.value, bool):
+            return node.value
+        return self._const_test(node, fi)
+
+    def _const_test(self, test, fi):
+        if isinstance(test, ast.Name):
+            return self.const_params.get((fi.qualname, test.id))
+        if isinstance(test, ast.UnaryOp) and isinstance(test.op, ast.Not):
+            v = self._const_test(test.operand, fi)
+            return None if v is None else (not v)
+        if isinstance(test, ast.Constant) and isinstance(test.value, bool):
+            return test.value
+        return None
 
     # ------------------------------------------------------------------ fixpoint
     def _solve(self):
@@ -145,8 +214,11 @@ class Effects:
         return bool(parts) and all(p in SCALAR_ANN or p.startswith("Literal") or p == "None" for p in parts)
 
     def _walk(self, stmts, fi, s, env, fld):
+        """-> True when the block always leaves the function (return / raise): what follows it is not analysed"""
         for st in stmts:
-            self._stmt(st, fi, s, env, fld)
+            if self._stmt(st, fi, s, env, fld) is True:
+                return True
+        return False
 
     def _bind(self, target, roots, fi, s, env, fld):
         if isinstance(target, ast.Name):
@@ -175,12 +247,16 @@ class Effects:
             if nones:
                 for nm in nones[i]:
                     e2[nm] = set()      # the name holds None on this branch: nothing to alias
-            self._walk(blk, fi, s, e2, f2)
-            res_env.append(e2)
-            res_fld.append(f2)
+            done = self._walk(blk, fi, s, e2, f2)
+            if not done:
+                res_env.append(e2)
+                res_fld.append(f2)
+        if not res_env:
+            return True                 # every alternative leaves the function
         je, jf = self._join(res_env), self._join(res_fld)
         env.clear(); env.update(je)
         fld.clear(); fld.update(jf)
+        return False
 
     def _loop(self, body, fi, s, env, fld, pre=None):
         for _ in range(3):
@@ -225,12 +301,16 @@ class Effects:
                 r = self.roots(st.value, fi, s, env, fld)
                 r |= self._field_roots(st.value, fld)
                 s.ret |= r
+            return True
         elif isinstance(st, ast.Expr):
             self.roots(st.value, fi, s, env, fld)
         elif isinstance(st, ast.If):
             self.roots(st.test, fi, s, env, fld)
+            ct = self._const_test(st.test, fi)
+            if ct is not None:
+                return self._walk(st.body if ct else st.orelse, fi, s, env, fld)
             none_in_body, none_in_else = _none_names(st.test)
-            self._branch([st.body, st.orelse], fi, s, env, fld, nones=[none_in_body, none_in_else])
+            return self._branch([st.body, st.orelse], fi, s, env, fld, nones=[none_in_body, none_in_else])
         elif isinstance(st, ast.While):
             self.roots(st.test, fi, s, env, fld)
             self._loop(st.body, fi, s, env, fld)
@@ -251,6 +331,7 @@ class Effects:
         elif isinstance(st, ast.Raise):
             if st.exc is not None:
                 self.roots(st.exc, fi, s, env, fld)
+            return True
         elif isinstance(st, ast.Assert):
             self.roots(st.test, fi, s, env, fld)
         elif isinstance(st, ast.Global):
@@ -396,6 +477,9 @@ class Effects:
             return set()
         if isinstance(e, ast.IfExp):
             self.roots(e.test, fi, s, env, fld)
+            ct = self._const_test(e.test, fi)
+            if ct is not None:
+                return self.roots(e.body if ct else e.orelse, fi, s, env, fld)
             return self.roots(e.body, fi, s, env, fld) | self.roots(e.orelse, fi, s, env, fld)
         if isinstance(e, (ast.Tuple, ast.List, ast.Set)):
             out = set()
@@ -763,7 +847,7 @@ class Effects:
                 return br
             if name == "astype":
                 cp = [k for k in e.keywords if k.arg == "copy"]
-                if cp and isinstance(cp[0].value, ast.Constant) and cp[0].value.value is False:
+                if cp and self._copy_flag(cp[0].value, fi) is not True:
                     return br
                 return set()
             if name in FRESH_METHODS:
@@ -846,7 +930,7 @@ class Effects:
                 return set()
             if last == "array" or last == "astype":
                 cp = [k for k in e.keywords if k.arg == "copy"]
-                if cp and isinstance(cp[0].value, ast.Constant) and cp[0].value.value is False:
+                if cp and self._copy_flag(cp[0].value, fi) is not True:
                     return allr
                 return set()
             if last in VIEW_FUNCS:
@@ -877,6 +961,13 @@ class Effects:
             if cs.fi.parent is self.sum[qualname].fi:
                 self.reachable(q, seen)
         return seen
+
+
+def _reassigned(fnode, name):
+    for n in ast.walk(fnode):
+        if isinstance(n, ast.Name) and n.id == name and isinstance(n.ctx, (ast.Store, ast.Del)):
+            return True
+    return False
 
 
 def _none_names(test):
